@@ -322,24 +322,26 @@ class Paraxial:
                 raise ValueError('Field type cannot be "object_height" for an '
                                  'object at infinity.')
 
-            y = -np.tan(np.radians(field_y)) * EPL
-            z = self.optic.surface_group.positions[1]
+            # launch plane in front of both the first surface and the
+            # entrance pupil (the slope is undefined if they coincide)
+            z = np.minimum(self.optic.surface_group.positions[1], EPL) - 1
+            y = -np.tan(np.radians(field_y)) * (EPL - z)
 
             y0 = y1 + y
             z0 = np.ones_like(y1) * z
         else:
             if self.optic.field_type == 'object_height':
-                y = -field_y
+                y = field_y
                 z = obj.geometry.cs.z
 
                 y0 = np.ones_like(y1) * y
                 z0 = np.ones_like(y1) * z
 
             elif self.optic.field_type == 'angle':
-                y = -np.tan(np.radians(field_y))
                 z = self.optic.surface_group.positions[0]
+                y = -np.tan(np.radians(field_y)) * (EPL - z)
 
-                y0 = y1 + y
+                y0 = np.ones_like(y1) * y
                 z0 = np.ones_like(y1) * z
 
         return y0, z0
